@@ -327,6 +327,7 @@ def generators(R):
         o.append(gen_match_fn(dec, 'dec_x12_val', 'decodation/mod.rs', 'dec_x12_val', 'optN'))
         o.append(gen_match_fn(x12, 'is_native_x12', 'x12.rs', 'is_native_x12', 'bool_matches'))
         o.append(gen_match_fn(x12, 'enc', 'x12.rs', 'x12_enc', 'optN'))
+        o.append(gen_match_fn(edi, 'is_encodable', 'edifact.rs', 'edifact_is_encodable', 'bool_matches'))
         o.append(gen_match_fn(c40, 'in_base_set', 'c40.rs', 'c40_in_base_set', 'bool_matches'))
         o.append(gen_match_fn(text, 'in_base_set', 'text.rs', 'text_in_base_set', 'bool_matches'))
         o.append(gen_match_fn(c40, 'val_size', 'c40.rs', 'c40_val_size', 'N'))
